@@ -66,6 +66,10 @@ type c37Case struct {
 	SimDontHave  bool            `json:"sim_dont_have"`
 	QuietStores  bool            `json:"quiet_stores"`
 	PhaseMS      int             `json:"phase_ms"`
+	// Legacy lists nodes that are announced to their peers as not supporting HAVE /
+	// DONT_HAVE (old protocol versions): the others send them want-blocks only and
+	// time the answers out themselves
+	Legacy []int `json:"legacy,omitempty"`
 }
 
 func c37Gen(t *rapid.T, tier string) any {
@@ -142,6 +146,9 @@ func c37Gen(t *rapid.T, tier string) any {
 	c.SimDontHave = rapid.Bool().Draw(t, "simdonthave")
 	c.QuietStores = rapid.IntRange(0, 2).Draw(t, "quiet") > 0
 	c.PhaseMS = rapid.SampledFrom([]int{100, 2000, 12000}).Draw(t, "phase")
+	if rapid.IntRange(0, 3).Draw(t, "withlegacy") == 0 {
+		c.Legacy = rapid.SliceOfNDistinct(rapid.IntRange(0, c.Nodes-1), 1, c.Nodes, rapid.ID[int]).Draw(t, "legacy")
+	}
 	c.Cfg = verifsim.GenConfig(t, 400, 60000, 10*time.Minute, []time.Duration{time.Millisecond, 50 * time.Millisecond, time.Second})
 	return c
 }
@@ -247,7 +254,13 @@ func c37Run(t *testing.T, ci any, trace bool) *verifsim.Result {
 			}
 		}
 		for i, nd := range nodes {
-			nd.adapt = net.Adapter(i, true)
+			legacy := false
+			for _, l := range c.Legacy {
+				if l == i {
+					legacy = true
+				}
+			}
+			nd.adapt = net.Adapter(i, !legacy)
 			rt := &c37Router{s: s, knows: c.RoutingKnows, self: i, holders: func(k cid.Cid) []int {
 				var out []int
 				if b, ok := index[k.KeyString()]; ok {
@@ -593,6 +606,28 @@ func c37Run(t *testing.T, ci any, trace bool) *verifsim.Result {
 							if owner >= 0 {
 								suspects = append(suspects, c37Suspect{node: ni, block: b, key: w.KeyString(), owner: owner})
 								continue
+							}
+						}
+						// Known finding: the same session asks for a key again right after it got
+						// it (second fetch on the session with a key of the first). The cancel for
+						// the received key travels through the session's want sender, the new want
+						// is registered by the session loop: if the want sender's "no longer
+						// interested" lands between the loop's "interested again" and its broadcast,
+						// the want is on the wire with nobody accounting for it.
+						for ri, r := range c.Reqs {
+							if r.Node != ni || r.Kind != "session" {
+								continue
+							}
+							in1, in2 := false, false
+							for _, k := range r.Keys {
+								in1 = in1 || k == b
+							}
+							for _, k := range r.Keys2 {
+								in2 = in2 || k == b
+							}
+							if in1 && in2 {
+								s.Failf("want-left-behind-after-rewant-in-session", "%s: node %d's want-list still contains block #%d; req#%d asked for it twice on one session (second fetch after the first had received it)", when, ni, b, ri)
+								return false
 							}
 						}
 						s.Failf("want-left-behind", "%s: node %d's want-list still contains block #%d, which no live request of that node is waiting for", when, ni, index[w.KeyString()])
